@@ -52,7 +52,7 @@ let show_entry = function
 let show_step ((m, blobs), h) =
   let ms = match m with None -> "m-" | Some (s, k) -> Printf.sprintf "m%d:k%d" (int_of_n s) (int_of_n k) in
   let bs = String.concat "," (List.sort compare (List.map hex blobs)) in
-  let hs = match h with None -> "h-" | Some es -> "h" ^ String.concat "/" (List.map show_entry es) in
+  let hs = match h with None -> "hX" | Some es -> "h" ^ String.concat "/" (List.map show_entry es) in
   ms ^ ";b" ^ bs ^ ";" ^ hs
 let () =
   try
@@ -132,7 +132,7 @@ def parse_trace(line):
         d = {"manifest": None if m == "m-" else m[1:], "names_ok": not b.endswith("!")}
         bl = b[1:].rstrip("!")
         d["blobs"] = [] if bl == "" else bl.split(",")
-        if h == "h-":
+        if h == "hX":
             d["handle"] = None
         else:
             es = []
